@@ -41,9 +41,10 @@ def plan(tier, seed):
     for cid, rs in sorted(by.items()):
         rs = sorted(rs, key=lambda r: (len(r["input"]), r["input"]))
         sg = corpus.is_semgrep_detected(cid)      # each of their runs costs a semgrep invocation: the quick tier gives them one seed in one rotating form
-        for ri, r in enumerate(rs[: (1 if (sg and tier == "quick") else per)]):
+        for ri, r in enumerate(rs[: ((1 if tier == "quick" else 2) if sg else per)]):
           forms = ("module", "def", "method", "if-block")
-          for where in (((forms[(len(disc) + seed) % 4],) if sg else ("module", forms[1 + ri % 3])) if tier == "quick" else forms):
+          # semgrep-detected codemods: one seed in one rotating form (quick), two seeds in two rotating forms (thorough); the others: every form in the thorough tier
+          for where in (((forms[(len(disc) + seed) % 4],) if sg else ("module", forms[1 + ri % 3])) if tier == "quick" else ((forms[(ri + seed) % 4], forms[(ri + seed + 2) % 4]) if sg else forms)):
             rep = replicate(r["input"], where=where)
             if rep is None: continue
             src, ranges = rep
@@ -71,7 +72,7 @@ def plan(tier, seed):
         base = {"cid": j["cid"], "src": j["src"], "sites": sites, "ranges": j["ranges"], "disc_report_lines": report_lines, "n_out_before": len(outside)}
         subsets = [s for n in range(1, K + 1) for s in itertools.combinations(range(K), n)]
         spellings = ["pkg/code.py:{n}", "*.py:{n}", "**/code.py:{n}", "{abs}:{n}", "code.py:{n}"]
-        picks = rnd.sample(subsets, 2 if tier == "quick" else len(subsets))
+        picks = rnd.sample(subsets, 2 if tier == "quick" else (3 if corpus.is_semgrep_detected(j["cid"]) else len(subsets)))
         # diagnostic cases (judged like any other): the whole filter on/off in the plain glob spelling; a codemod that fails one of them
         # does not apply the line filter at all, and every violation of that codemod is keyed line-filter-not-applied/<codemod>
         for dname, mode, sub in (("exclude-all", "exclude", tuple(range(K))), ("include-all", "include", tuple(range(K))), ("include-first", "include", (0,))):
